@@ -5,6 +5,7 @@ import (
 	"context"
 	"encoding/base64"
 	"encoding/json"
+	"errors"
 	"fmt"
 	"io"
 	"net/http"
@@ -419,6 +420,52 @@ func c19Getter() *Scenario {
 					}
 				}
 				g.Close()
+				// the Getter's server options are honoured: with the built-ins disabled rpc.serverInfo is just an unknown method
+				g2 := jhttp.NewGetter(assignerFunc(func(ctx context.Context, m string) jrpc2.Handler { return nil }),
+					&jhttp.GetterOptions{Server: &jrpc2.ServerOptions{DisableBuiltin: true}})
+				w2 := httptest.NewRecorder()
+				g2.ServeHTTP(w2, httptest.NewRequest("GET", "/rpc.serverInfo", nil))
+				r.Case("getter/options", true)
+				if w2.Code != 404 {
+					r.Fail("C19.R5", "/rpc.serverInfo with Server.DisableBuiltin", fmt.Sprintf("status %d, want 404 (the Getter must pass its server options on)", w2.Code), "")
+				}
+				g2.Close()
+				// a Bridge that also answers GET: one call per request, one JSON value in the body, its server options honoured
+				calls := 0
+				bhd := func(ctx context.Context, req *jrpc2.Request) (any, error) { calls++; return "v", nil }
+				bopts := &jhttp.BridgeOptions{
+					ParseGETRequest: jhttp.ParseQuery,
+					ParseRequest: func(hr *http.Request) ([]*jrpc2.ParsedRequest, error) {
+						data, err := io.ReadAll(hr.Body)
+						if err != nil {
+							return nil, err
+						}
+						return jrpc2.ParseRequests(data)
+					},
+					Server: &jrpc2.ServerOptions{DisableBuiltin: true},
+				}
+				br := jhttp.NewBridge(assignerFunc(func(ctx context.Context, m string) jrpc2.Handler {
+					if m == "echo" {
+						return bhd
+					}
+					return nil
+				}), bopts)
+				for _, t := range []struct {
+					target string
+					status int
+					calls  int
+				}{{"/echo?a=1", 200, 1}, {"/rpc.serverInfo", 404, 0}, {"/nope", 404, 0}} {
+					calls = 0
+					w3 := httptest.NewRecorder()
+					pb := guarded(func() { br.ServeHTTP(w3, httptest.NewRequest("GET", t.target, nil)) })
+					vs.AwaitQuiescence()
+					r.Case("bridge-get", true)
+					Hit("C19.R5")
+					if pb != "" || w3.Code != t.status || calls != t.calls || !json.Valid(w3.Body.Bytes()) {
+						r.Fail("C19.R5", "Bridge GET "+t.target, fmt.Sprintf("status %d (want %d), handler calls %d (want %d), body %q (want one JSON value), panic %q", w3.Code, t.status, calls, t.calls, w3.Body.String(), pb), "")
+					}
+				}
+				br.Close()
 			})
 			r.Calls(x.Steps)
 			if x.Outcome != "ok" {
@@ -449,10 +496,17 @@ type inprocHTTP struct {
 	n         int
 	closed    []*int
 	badStatus int // if non-zero, the first request is answered with this status and a non-JSON body
+	doErr     int // that many requests fail at the transport (Do returns an error, no response)
 }
 
 func (c *inprocHTTP) Do(req *http.Request) (*http.Response, error) {
 	vs.Yield("http do")
+	if c.n < c.doErr {
+		c.n++
+		io.Copy(io.Discard, req.Body)
+		vs.Note("http-failed", fmt.Sprint(c.n))
+		return nil, errors.New("transport failure: connection refused")
+	}
 	w := httptest.NewRecorder()
 	if c.badStatus != 0 && c.n == 0 {
 		io.Copy(io.Discard, req.Body)
@@ -474,7 +528,9 @@ type c19W struct {
 	Name      string
 	Close     bool // Close races with the operations
 	Ops       []string
-	BadStatus int // the first HTTP request is answered with this status instead of reaching the bridge
+	BadStatus int  // the first HTTP request is answered with this status instead of reaching the bridge
+	DoErr     int  // that many HTTP requests fail at the transport
+	NoBuiltin bool // the bridge's server has DisableBuiltin set (op "info" must then be method-not-found)
 }
 
 func c19Channel(w c19W, b Bounds) *Scenario {
@@ -486,8 +542,14 @@ func c19Channel(w c19W, b Bounds) *Scenario {
 			var hc *inprocHTTP
 			body := func() {
 				var tags []string
-				br := newBridge(&tags, false)
-				hc = &inprocHTTP{h: br, badStatus: w.BadStatus}
+				var br jhttp.Bridge
+				if !w.NoBuiltin {
+					br = newBridge(&tags, false)
+				} else {
+					br = jhttp.NewBridge(assignerFunc(func(ctx context.Context, m string) jrpc2.Handler { return nil }),
+						&jhttp.BridgeOptions{Server: &jrpc2.ServerOptions{DisableBuiltin: true}})
+				}
+				hc = &inprocHTTP{h: br, badStatus: w.BadStatus, doErr: w.DoErr}
 				ch := jhttp.NewChannel("http://bridge/", &jhttp.ChannelOptions{Client: hc})
 				cli := jrpc2.NewClient(ch, nil)
 				var j Join
@@ -525,6 +587,10 @@ func c19Channel(w c19W, b Bounds) *Scenario {
 							}
 							vs.Yield("ret")
 							vs.Note("ret", fmt.Sprint(i), op, strings.Join(parts, ","), errStr(err))
+						case "info":
+							_, err := cli.Call(context.Background(), "rpc.serverInfo", nil)
+							vs.Yield("ret")
+							vs.Note("ret", fmt.Sprint(i), "info", "", fmt.Sprint(int(jrpc2.ErrorCode(err))))
 						case "unknown":
 							_, err := cli.Call(context.Background(), "nope", nil)
 							vs.Yield("ret")
@@ -553,8 +619,8 @@ func c19Channel(w c19W, b Bounds) *Scenario {
 						continue
 					}
 					e := x.Log[ri]
-					failed := (op != "unknown" && e.Arg(3) != "<nil>")
-					if failed && !w.Close && w.BadStatus == 0 {
+					failed := (op != "unknown" && op != "info" && e.Arg(3) != "<nil>")
+					if failed && !w.Close && w.BadStatus == 0 && w.DoErr == 0 {
 						v = append(v, Viol{"C19.R6", fmt.Sprintf("%s over the HTTP channel failed: %s", op, e.Arg(3))})
 						continue
 					}
@@ -579,6 +645,10 @@ func c19Channel(w c19W, b Bounds) *Scenario {
 					case "batch":
 						if e.Arg(2) != `"`+tag+`"` {
 							v = append(v, Viol{"C19.R6", fmt.Sprintf("batch returned %q, want %q", e.Arg(2), `"`+tag+`"`)})
+						}
+					case "info":
+						if want := map[bool]string{true: "-32601", false: "-32099"}[w.NoBuiltin]; e.Arg(3) != want && !w.Close {
+							v = append(v, Viol{"C19.R6", fmt.Sprintf("rpc.serverInfo over the HTTP channel (DisableBuiltin=%v) gave code %s, a direct connection gives %s", w.NoBuiltin, e.Arg(3), want)})
 						}
 					case "unknown":
 						if e.Arg(3) != "-32601" && !w.Close && w.BadStatus == 0 {
@@ -630,6 +700,13 @@ func c19Scenarios(tier string) []*Scenario {
 		c19Channel(c19W{Name: "notify answered with HTTP 404, then a call", Ops: []string{"notify", "call"}, BadStatus: 404}, b1),
 		c19Channel(c19W{Name: "call answered with HTTP 500 racing Close", Ops: []string{"call"}, Close: true, BadStatus: 500}, b1),
 		c19Channel(c19W{Name: "call answered with HTTP 204 (no content)", Ops: []string{"call"}, Close: true, BadStatus: 204}, b1),
+		c19Channel(c19W{Name: "call, the transport fails", Ops: []string{"call"}, DoErr: 1}, b1),
+		c19Channel(c19W{Name: "two calls, the transport fails for both", Ops: []string{"call", "call"}, DoErr: 2}, b2),
+		c19Channel(c19W{Name: "two calls, the transport fails for both, racing Close", Ops: []string{"call", "call"}, DoErr: 2, Close: true}, b2),
+		c19Channel(c19W{Name: "two calls, the transport fails for the first", Ops: []string{"call", "call"}, DoErr: 1}, b2),
+		c19Channel(c19W{Name: "notify, the transport fails, then a call", Ops: []string{"notify", "call"}, DoErr: 1}, b1),
+		c19Channel(c19W{Name: "rpc.serverInfo with the built-ins disabled on the bridge's server", Ops: []string{"info"}, NoBuiltin: true}, b1),
+		c19Channel(c19W{Name: "rpc.serverInfo", Ops: []string{"info"}}, b1),
 	)
 	return out
 }
